@@ -7,6 +7,7 @@ import Driver.C14
 import Driver.C05Mon
 import Driver.C08
 import Driver.C10Mon
+import Driver.C15
 open Kv
 
 structure DState where
@@ -27,6 +28,7 @@ def dispatch (st : DState) (prop : String) (l : Line) : DState × String :=
   | "C05" => (st, Drv.C05.step l)
   | "C08" => let (s, r) := Drv.C08.step st.c08 l; ({ st with c08 := s }, r)
   | "C10" => (st, Drv.C10.step l)
+  | "C15" => (st, Drv.C15.step l)
   | _ => (st, "bad-op")
 
 def main : IO Unit := driverMain dispatch {}
